@@ -347,6 +347,12 @@ def replay_file(path):
     try:
         exe = build_harness(d)
         src, se, args = parse_replay(path)
+        try:
+            # the SOURCE is the replayed input; its s-expression is re-derived with the current printer (a stored one may
+            # predate a change of the protocol, e.g. the marking of extent-name uses); the stored one is the fallback
+            se = nevast.prog_sexpr(nevast.parse_program(src, sample_module_loader))
+        except Exception:
+            pass
         ir, ierr = run_impl(exe, [("r", src, args)])
         mr, _ = run_model([("r", se, args, FUEL)])
         c, det = verdict(ir["r"], mr.get("r"))
